@@ -186,6 +186,7 @@ pub fn assemble(rng: &mut Rng, which: usize) -> Case {
     "remove_util", "undef_util_in_util", "undef_util_in_constraint", "undef_util_in_expansion", "cycle_utils", "cycle_utils_self", "rename_rewriter", "remove_rewriters", "rewriter_no_fix", "rewriter_undef_var",
     "sigil_mismatch", "toggle_fix_form", "no_kinds", "undef_rewriter_in_rewriter", "rewriter_uses_upper_var",
     "undef_rewriter_in_indirect_rewriter", "undef_rewriter_in_orphan_rewriter", "indirect_rewriter_ok",
+    "cyclic_transform_rewrite_self", "cyclic_transform_rewrite_pair",
   ];
   let p = names[which % names.len()];
   let mut tag = p.to_string();
@@ -233,6 +234,18 @@ pub fn assemble(rng: &mut Rng, which: usize) -> Case {
     }
     "cyclic_transform" if has_t => {
       doc.get_mut("transform").unwrap()["T1"]["substring"]["source"] = json!("$T2");
+      expect = "Core.Transform.Cyclic".into();
+      true
+    }
+    // a transformation cycle closed by a `rewrite` member (any operator may close a cycle)
+    "cyclic_transform_rewrite_self" | "cyclic_transform_rewrite_pair" if with_rw => {
+      let t = doc.get_mut("transform").unwrap();
+      if p == "cyclic_transform_rewrite_self" {
+        t["CT"] = json!({"rewrite": {"source": "$CT", "rewriters": ["rw"]}});
+      } else {
+        t["CT"] = json!({"rewrite": {"source": "$CU", "rewriters": ["rw"]}});
+        t["CU"] = json!({"replace": {"source": "$CT", "replace": "a", "by": "b"}});
+      }
       expect = "Core.Transform.Cyclic".into();
       true
     }
